@@ -92,6 +92,28 @@ func genSchema(r *rng.R, o *dops, pool []schema.Type, f *feat) *schema.Schema {
 				pk = schema.NewPrimaryKey(t.Columns[0], t.Columns[1])
 			}
 			t.Columns[0].Type.Null = false
+			// MySQL: whatever is valid on a part of a secondary index is valid on a part of the primary key
+			// (`primary_key { on { column, desc, prefix } }`, index type). SQLite/PG: the HCL primary_key block
+			// has `columns` only and neither inspector reports DESC on a key part, so such schemas are not
+			// reachable by inspection and stay outside the generated domain.
+			if r.Chance(1, 2) {
+				for _, p := range pk.Parts {
+					if o.name == "mysql" {
+						p.Desc = r.Chance(1, 3)
+						if p.Desc {
+							f.add("pk-desc")
+						}
+					}
+					if o.name == "mysql" && isStr(p.C.Type.Type) && r.Chance(2, 3) {
+						p.AddAttrs(&mysql.SubPart{Len: 1 + r.Intn(9)})
+						f.add("pk-prefix")
+					}
+				}
+				if o.name == "mysql" && r.Chance(1, 4) {
+					pk.AddAttrs(&mysql.IndexType{T: rng.Pick(r, []string{"BTREE", "HASH"})})
+					f.add("pk-type")
+				}
+			}
 			t.SetPrimaryKey(pk)
 			f.add("pk")
 		}
